@@ -89,7 +89,9 @@ func utf8Len(b []byte, k int) int {
 }
 
 // utf8Rune is the scalar value encoded by the well-formed sequence at b[k]
-// (meaningful only when utf8Len(b, k) > 0).
+// (meaningful only when utf8Len(b, k) > 0): the payload bits of Table 3-6,
+// written arithmetically (a lead byte 110xxxxx carries b-0xC0, a continuation
+// byte 10xxxxxx carries b-0x80, and so on).
 //
 //@ spec utf8Rune
 func utf8Rune(b []byte, k int) rune {
@@ -98,13 +100,13 @@ func utf8Rune(b []byte, k int) rune {
 		return rune(b[k])
 	}
 	if n == 2 {
-		return rune(b[k]&0x1F)<<6 | rune(b[k+1]&0x3F)
+		return rune(b[k]-0xC0)*64 + rune(b[k+1]-0x80)
 	}
 	if n == 3 {
-		return rune(b[k]&0x0F)<<12 | rune(b[k+1]&0x3F)<<6 | rune(b[k+2]&0x3F)
+		return rune(b[k]-0xE0)*4096 + rune(b[k+1]-0x80)*64 + rune(b[k+2]-0x80)
 	}
 	if n == 4 {
-		return rune(b[k]&0x07)<<18 | rune(b[k+1]&0x3F)<<12 | rune(b[k+2]&0x3F)<<6 | rune(b[k+3]&0x3F)
+		return rune(b[k]-0xF0)*262144 + rune(b[k+1]-0x80)*4096 + rune(b[k+2]-0x80)*64 + rune(b[k+3]-0x80)
 	}
 	return utf8.RuneError
 }
@@ -136,3 +138,8 @@ func utf8Rune(b []byte, k int) rune {
 //@ trusted unicode/utf16: validated exhaustively over all surrogate pairs and sampled elsewhere
 //@ ensures pair: 0xd800 <= r1 && r1 < 0xdc00 && 0xdc00 <= r2 && r2 < 0xe000 ==> result == (r1-0xd800)*1024+(r2-0xdc00)+0x10000
 //@ ensures nopair: !(0xd800 <= r1 && r1 < 0xdc00 && 0xdc00 <= r2 && r2 < 0xe000) ==> result == 0xfffd
+
+//@ extern utf16.EncodeRune(r rune) (r1, r2 rune)
+//@ trusted unicode/utf16: validated exhaustively over all rune values
+//@ ensures supp: 0x10000 <= r && r <= 0x10ffff ==> r1 == 0xd800+(r-0x10000)/1024 && r2 == 0xdc00+(r-0x10000)%1024
+//@ ensures bmp: !(0x10000 <= r && r <= 0x10ffff) ==> r1 == 0xfffd && r2 == 0xfffd
